@@ -218,6 +218,9 @@ func main() {
 	if o.Thorough() {
 		n = 2500
 	}
+	// past failures first (checks/../corpus/<id>.txt: witnesses of repaired defects and of seeded changes), then n generated scenarios
+	scens := o.Scens("SCEN", n)
+	n = len(scens)
 	results := make([][]runRes, n)
 	var wg sync.WaitGroup
 	sem := make(chan struct{}, 12)
@@ -227,11 +230,11 @@ func main() {
 		go func(i int) {
 			defer wg.Done()
 			defer func() { <-sem }()
-			results[i] = scenario(o.Seed, i, o.Tier, root)
+			results[i] = scenario(scens[i].Seed, scens[i].Idx, scens[i].Tier, filepath.Join(root, fmt.Sprintf("k%d", i)))
 		}(i)
 	}
 	wg.Wait()
 	for i, rs := range results {
-		emit(rs, fmt.Sprintf("SCEN %d %d %s", o.Seed, i, o.Tier))
+		emit(rs, scens[i].String())
 	}
 }
